@@ -5,4 +5,5 @@ Extraction Language OCaml.
 Extraction "../build/ocaml/c14/model.ml"
   recode recoder_init recoder_init_unfixed bs_nop
   ir_step ir_run rinit produced_here dict_expand apply_transform
-  cmd_step cmd_run cmds_ok copy_loop copy_fast list_eqb N.add N.mul N.div_eucl.
+  cmd_step cmd_run cmds_ok copy_loop copy_fast list_eqb split_ok
+  count_literal_switches choose_stride_ok choose_stride_ok_unfixed score_len N.add N.mul N.div_eucl.
